@@ -236,6 +236,20 @@ func niFlow(c *Ctx, a *flAgg) {
 								}
 							}
 						}
+						// strings.Builder is concatenation: the builder holds what was
+						// written to it, String() gives it back
+						if cal != nil && calleePkg(cal) == "strings" && cal.Signature.Recv() != nil && strings.HasSuffix(cal.Signature.Recv().Type().String(), "strings.Builder") && len(in.Call.Args) >= 1 {
+							switch cal.Name() {
+							case "WriteString":
+								if len(in.Call.Args) == 2 && taint[in.Call.Args[1]] {
+									mark(in.Call.Args[0])
+								}
+							case "String":
+								if taint[in.Call.Args[0]] {
+									mark(in)
+								}
+							}
+						}
 						if cal != nil && calleePkg(cal) == "strings" && cal.Name() == "Join" {
 							// strings.Join(out, "\n") of tainted elements
 							if sliceHoldsTaint(in.Call.Args[0], taint) {
@@ -329,6 +343,8 @@ func niFlow(c *Ctx, a *flAgg) {
 					case pkg == "regexp" && strings.HasPrefix(name, "Match"):
 						// the documented exception: filters are applied to the printed header
 					case strings.HasPrefix(pkg, modPath), pkg == "io", pkg == "strings" && name == "Join", pkg == "fmt":
+					case pkg == "strings" && cal.Signature.Recv() != nil && strings.HasSuffix(cal.Signature.Recv().Type().String(), "strings.Builder") && (name == "WriteString" || name == "String" || name == "Grow" || name == "Reset" && false):
+						// concatenation through a builder (its length is not asked)
 					default:
 						for _, arg := range in.Call.Args {
 							if taint[arg] {
@@ -527,10 +543,13 @@ func niWidth(c *Ctx, a *flAgg) {
 		// the measured values: len(<call of formatCall on &X.Calls[i]>) and len(X.Calls[i].Func.DirName)
 		okSrc, okPkg := false, false
 		other := ""
-		for _, b := range fn.Blocks {
+		for _, b := range blocksWithHelpers(fn) {
 			for _, in := range b.Instrs {
 				call, ok := in.(*ssa.Call)
 				if !ok {
+					continue
+				}
+				if bi, ok := call.Call.Value.(*ssa.Builtin); ok && (bi.Name() == "max" || bi.Name() == "min") {
 					continue
 				}
 				if bi, ok := call.Call.Value.(*ssa.Builtin); ok && bi.Name() == "len" {
@@ -556,7 +575,7 @@ func niWidth(c *Ctx, a *flAgg) {
 							other = arg.String()
 						}
 					}
-				} else if cal := call.Call.StaticCallee(); cal != nil && cal.Name() != "formatCall" {
+				} else if cal := call.Call.StaticCallee(); cal != nil && cal.Name() != "formatCall" && !defaultInline(cal) {
 					other = "call of " + cal.Name()
 				}
 			}
@@ -1145,6 +1164,17 @@ func niWidthMax(c *Ctx, a *flAgg) {
 			continue
 		}
 		exprHome = fn.Pkg.Pkg
+		// the loop over the calls may have been moved into a helper that takes
+		// the running maxima and returns them: the helper is analysed, and the
+		// caller must thread (source width, package width) through it in place
+		if h, ok := niWidthHelper(fn); ok {
+			if !h.threaded {
+				a.bad("NI-width", name+"/maximum", "the running maxima are not threaded through "+h.fn.Name()+" in the same positions they come back in", fn.Pos())
+				a.bad("NI-width", name+"/result-order", "see maximum", fn.Pos())
+				continue
+			}
+			fn = h.fn
+		}
 		// the innermost loop (over the calls)
 		var inner *loopInfo
 		for _, l := range naturalLoops(fn) {
@@ -1346,4 +1376,92 @@ func niWidthMax(c *Ctx, a *flAgg) {
 	if tops == 0 {
 		a.und("NI-width", "wiring", "no writer passes the computed widths", cl.Pos())
 	}
+}
+
+type niHelper struct {
+	fn       *ssa.Function
+	threaded bool
+}
+
+// niWidthHelper: fn's loop body calls one helper outside the pinned
+// vocabulary with two of fn's loop-carried ints and takes its two int
+// results back into the same two variables, which fn returns in that order.
+func niWidthHelper(fn *ssa.Function) (niHelper, bool) {
+	for _, l := range naturalLoops(fn) {
+		for b := range l.Body {
+			for _, in := range b.Instrs {
+				call, ok := in.(*ssa.Call)
+				if !ok {
+					continue
+				}
+				cal := call.Call.StaticCallee()
+				if cal == nil || !defaultInline(cal) || cal.Signature.Results().Len() != 2 || len(naturalLoops(cal)) == 0 {
+					continue
+				}
+				h := niHelper{fn: cal}
+				// the two phis passed in
+				var phis []*ssa.Phi
+				var pos []int
+				for i, arg := range call.Call.Args {
+					if ph, ok := arg.(*ssa.Phi); ok && ph.Block() == l.Header && isIntType(ph.Type()) {
+						phis = append(phis, ph)
+						pos = append(pos, i)
+					}
+				}
+				if len(phis) != 2 {
+					return h, true
+				}
+				// results 0/1 flow back into the same phis, in order
+				back := func(ph *ssa.Phi, idx int) bool {
+					for i, e := range ph.Edges {
+						if !l.Body[ph.Block().Preds[i]] {
+							continue
+						}
+						ex, ok := e.(*ssa.Extract)
+						if !ok || ex.Tuple != ssa.Value(call) || ex.Index != idx {
+							return false
+						}
+					}
+					return true
+				}
+				// the callee returns (its parameter-fed maxima) in the order of the parameters
+				retOrder := false
+				for _, cb := range cal.Blocks {
+					for _, ci := range cb.Instrs {
+						if ret, ok := ci.(*ssa.Return); ok && len(ret.Results) == 2 {
+							p0, ok0 := ret.Results[0].(*ssa.Phi)
+							p1, ok1 := ret.Results[1].(*ssa.Phi)
+							if ok0 && ok1 {
+								init := func(ph *ssa.Phi) ssa.Value {
+									for i, e := range ph.Edges {
+										if _, isP := e.(*ssa.Parameter); isP {
+											_ = i
+											return e
+										}
+									}
+									return nil
+								}
+								i0, i1 := init(p0), init(p1)
+								if i0 == ssa.Value(cal.Params[pos[0]]) && i1 == ssa.Value(cal.Params[pos[1]]) {
+									retOrder = true
+								}
+							}
+						}
+					}
+				}
+				// fn returns the two phis in the same order
+				fnRet := false
+				for _, fb := range fn.Blocks {
+					for _, fi := range fb.Instrs {
+						if ret, ok := fi.(*ssa.Return); ok && len(ret.Results) == 2 {
+							fnRet = ret.Results[0] == ssa.Value(phis[0]) && ret.Results[1] == ssa.Value(phis[1])
+						}
+					}
+				}
+				h.threaded = back(phis[0], 0) && back(phis[1], 1) && retOrder && fnRet
+				return h, true
+			}
+		}
+	}
+	return niHelper{}, false
 }
